@@ -57,6 +57,25 @@ def chk_zoom(inp):
                         got = fn(P(X, Y).astype(float), (m, m), order=order)
                         if not numpy.allclose(got, P(XX, YY), rtol=1e-8, atol=1e-8):
                             return bad("%s(order %d) does not reproduce a polynomial of degree <= order on a %dx%d array" % (fn.__name__, order, n, n), float(abs(got - P(XX, YY)).max()), 0.0)
+        # arrays and targets need not be square: same size returns the input, the old nodes are passed through, polynomials are reproduced on the new grid
+        for order in (1, 3):
+            for (n0, n1) in ((5, 8), (9, 6)):
+                a = rng.normal(size=(n0, n1))
+                same = fn(a, (n0, n1), order=order)
+                if same.shape != (n0, n1) or not numpy.allclose(same, a, rtol=1e-5, atol=1e-6):
+                    return bad("%s(order %d): zoom of a %dx%d array to the same size does not return the input" % (fn.__name__, order, n0, n1), list(same.shape), [n0, n1])
+                m0, m1 = 2 * (n0 - 1) + 1, 3 * (n1 - 1) + 1
+                up = fn(a, (m0, m1), order=order)
+                if up.shape != (m0, m1) or not numpy.allclose(up[::2, ::3], a, rtol=1e-5, atol=1e-6):
+                    return bad("%s(order %d): %dx%d array to (%d, %d): the new grid contains the old nodes but the result does not pass through the original samples" % (fn.__name__, order, n0, n1, m0, m1),
+                               list(up.shape), [m0, m1])
+                X, Y = numpy.meshgrid(numpy.arange(n0), numpy.arange(n1), indexing="ij")
+                P = lambda X, Y: 1 + 0.5 * X - 0.25 * Y + 0.1 * X * Y
+                for tgt in ((n0 + 2, 2 * n1), (7, 7)):
+                    XX, YY = numpy.meshgrid(numpy.linspace(0, n0 - 1, tgt[0]), numpy.linspace(0, n1 - 1, tgt[1]), indexing="ij")
+                    got = fn(P(X, Y).astype(float), tgt, order=order)
+                    if got.shape != tuple(tgt) or not numpy.allclose(got, P(XX, YY), rtol=1e-8, atol=1e-8):
+                        return bad("%s(order %d) does not reproduce a bilinear polynomial when zooming a %dx%d array to %s" % (fn.__name__, order, n0, n1, tgt), list(got.shape), list(tgt))
         # integer-typed images: interpolated values are not integers (a linear ramp zoomed 8 -> 15 has half-integer samples)
         ramp = numpy.add.outer(3 * numpy.arange(8), 2 * numpy.arange(8)) + 1
         xs = numpy.linspace(0, 7, 15)
